@@ -170,6 +170,130 @@ Proof.
     + rewrite flat_cons_eq in Hf. cbn [snd app length skipn] in *. lia.
 Qed.
 
+(* repeated PREV *)
+Fixpoint scan_prev (fuel : nat) (c : chain) (cur : cursor) : list (K * V) :=
+  match fuel with
+  | O => []
+  | S f =>
+    let '(r, cur') := cursor_to c cur CPrev in
+    match r with
+    | CROk => match cursor_read c cur' with Some e => e :: scan_prev f c cur' | None => [] end
+    | _ => []
+    end
+  end.
+
+Lemma nonempty_app_inv (a b : chain) : nonempty_nodes (a ++ b) -> nonempty_nodes a /\ nonempty_nodes b.
+Proof. unfold nonempty_nodes. rewrite Forall_app. tauto. Qed.
+
+Lemma flat_app (a b : chain) : flat (a ++ b) = flat a ++ flat b.
+Proof. unfold Node.flat. rewrite map_app, concat_app. reflexivity. Qed.
+
+Lemma firstn_S_nth (A : Type) (l : list A) (p : nat) (e : A) :
+  nth_error l p = Some e -> firstn (S p) l = firstn p l ++ [e].
+Proof.
+  revert p; induction l as [|x l IH]; intros [|p] H; simpl in *; try discriminate.
+  - inversion H. reflexivity.
+  - rewrite (IH p H). reflexivity.
+Qed.
+
+Lemma rev_snoc_split (A F rj : list (K * V)) e : rj = F ++ [e] -> rev (A ++ rj) = e :: rev (A ++ F).
+Proof. intros ->. rewrite app_assoc, rev_app_distr. reflexivity. Qed.
+
+Lemma scan_prev_from_node : forall fuel c pre id r rest p pend,
+  c = pre ++ (id, r) :: rest ->
+  ids_unique c ->
+  nonempty_nodes pre ->
+  p < length r ->
+  length (flat pre ++ firstn p r) < fuel ->
+  scan_prev fuel c (at_node pre id r rest p pend) = rev (flat pre ++ firstn p r).
+Proof.
+  induction fuel as [|fuel IH]; intros c pre id r rest p pend Hc Hu Hne Hp Hf; [lia|].
+  cbn [scan_prev cursor_to at_node c_cn c_pend c_skip c_pos cc_pnum cc_p0 cc_node].
+  change (0 <? 0)%Z with false. cbv iota.
+  destruct p as [|p].
+  - (* first slot: go to the previous node *)
+    change (Nat.eqb 0 0) with true. cbv iota. cbn [firstn]. rewrite app_nil_r in *.
+    destruct (@rev (node K V) pre) as [|[j rj] pre'r] eqn:Er.
+    + assert (pre = []) by (destruct pre; [reflexivity|apply (f_equal (@length _)) in Er; rewrite rev_length in Er; discriminate]).
+      subst pre. unfold last_id_or. cbn [rev]. reflexivity.
+    + assert (Hpre : pre = rev pre'r ++ [(j, rj)]).
+      { pose proof (@rev_involutive (node K V) pre) as Hri. rewrite Er in Hri. cbn [rev] in Hri. symmetry. exact Hri. }
+      unfold last_id_or at 1. rewrite Er.
+      assert (Hc' : c = rev pre'r ++ (j, rj) :: (id, r) :: rest) by (rewrite Hc, Hpre, <- app_assoc; reflexivity).
+      rewrite (load_at c (rev pre'r) j rj ((id, r) :: rest) Hc' Hu). cbv iota beta.
+      rewrite Hpre in Hne. apply nonempty_app_inv in Hne. destruct Hne as [Hne1 Hne2].
+      inversion Hne2 as [|x0 l0 Hrj Hx0]. cbn [snd] in Hrj.
+      assert (Hl : 0 < length rj) by (destruct rj; [congruence|simpl; lia]).
+      assert (Hnth : exists e, nth_error rj (length rj - 1) = Some e).
+      { destruct (nth_error rj (length rj - 1)) eqn:E; [eauto|]. apply nth_error_None in E. lia. }
+      destruct Hnth as [e He].
+      cbn [cc_pnum].
+      change {| c_cn := Some {| cc_node := CnNode j; cc_pnum := length rj; cc_p0 := last_id_or None (rev pre'r);
+                                cc_n0 := nid_of ((id, r) :: rest) |};
+                c_pos := length rj - 1; c_skip := 0%Z; c_pend := pend |}
+        with (at_node (rev pre'r) j rj ((id, r) :: rest) (length rj - 1) pend).
+      rewrite (read_at c (rev pre'r) j rj ((id, r) :: rest) (length rj - 1) pend e Hc' Hu He).
+      rewrite (IH c (rev pre'r) j rj ((id, r) :: rest) (length rj - 1) pend Hc' Hu Hne1); [|lia|].
+      * rewrite Hpre. rewrite flat_app. rewrite flat_cons_eq. cbn [snd]. change (flat []) with (@nil (K * V)). rewrite app_nil_r.
+        assert (Hsk : skipn (length rj - 1) rj = [e]).
+        { rewrite (skipn_nth_cons _ rj (length rj - 1) e He). rewrite skipn_all2 by lia. reflexivity. }
+        symmetry. apply rev_snoc_split. rewrite <- Hsk. symmetry. apply firstn_skipn.
+      * rewrite Hpre, flat_app, flat_cons_eq in Hf. cbn [snd] in Hf. change (flat []) with (@nil (K * V)) in Hf.
+        rewrite app_nil_r in Hf. rewrite !app_length in *.
+        rewrite firstn_length. lia.
+  - (* previous slot of the same node *)
+    change (Nat.eqb (S p) 0) with false. cbv iota. cbn [is_db cc_node]. cbv iota.
+    replace (S p - 1) with p by lia.
+    assert (Hnth : exists e, nth_error r p = Some e).
+    { destruct (nth_error r p) eqn:E; [eauto|]. apply nth_error_None in E. lia. }
+    destruct Hnth as [e He].
+    change {| c_cn := Some {| cc_node := CnNode id; cc_pnum := length r; cc_p0 := last_id_or None pre; cc_n0 := nid_of rest |};
+              c_pos := p; c_skip := 0%Z; c_pend := pend |}
+      with (at_node pre id r rest p pend).
+    rewrite (read_at c pre id r rest p pend e Hc Hu He).
+    rewrite (IH c pre id r rest p pend Hc Hu Hne); [|lia|].
+    + symmetry. apply rev_snoc_split. apply firstn_S_nth. exact He.
+    + rewrite (firstn_S_nth _ r p e He) in Hf. rewrite !app_length in *. simpl in Hf. lia.
+Qed.
+
+(* C02: from after-last, PREV enumerates the whole chain in reverse *)
+Theorem scan_prev_all (c : chain) (cur0 : cursor) (fuel : nat) :
+  ids_unique c -> nonempty_nodes c -> length (flat c) < fuel ->
+  scan_prev fuel c (snd (cursor_to c cur0 CAfterLast)) = rev (flat c).
+Proof.
+  intros Hu Hne Hf. cbn [cursor_to snd].
+  destruct fuel as [|fuel]; [lia|].
+  cbn [scan_prev cursor_to c_cn c_pend c_skip c_pos].
+  change (0 <? 0)%Z with false. cbv iota.
+  unfold load_tail. cbn [cc_pnum cc_p0]. change (Nat.eqb 0 0) with true. cbv iota.
+  unfold Node.last_id.
+  destruct (@rev (node K V) c) as [|[j rj] pre'r] eqn:Er.
+  - assert (c = []) by (destruct c; [reflexivity|apply (f_equal (@length _)) in Er; rewrite rev_length in Er; discriminate]).
+    subst c. reflexivity.
+  - assert (Hc : c = rev pre'r ++ (j, rj) :: []).
+    { pose proof (@rev_involutive (node K V) c) as Hri. rewrite Er in Hri. cbn [rev] in Hri. symmetry. exact Hri. }
+    rewrite (load_at c (rev pre'r) j rj [] Hc Hu). cbv iota beta.
+    pose proof Hne as Hne0. rewrite Hc in Hne0. apply nonempty_app_inv in Hne0. destruct Hne0 as [Hne1 Hne2].
+    inversion Hne2 as [|x0 l0 Hrj Hx0]. cbn [snd] in Hrj.
+    assert (Hl : 0 < length rj) by (destruct rj; [congruence|simpl; lia]).
+    assert (Hnth : exists e, nth_error rj (length rj - 1) = Some e).
+    { destruct (nth_error rj (length rj - 1)) eqn:E; [eauto|]. apply nth_error_None in E. lia. }
+    destruct Hnth as [e He]. cbn [cc_pnum].
+    change {| c_cn := Some {| cc_node := CnNode j; cc_pnum := length rj; cc_p0 := last_id_or None (rev pre'r); cc_n0 := nid_of [] |};
+              c_pos := length rj - 1; c_skip := 0%Z; c_pend := PNone |}
+      with (at_node (rev pre'r) j rj [] (length rj - 1) PNone).
+    erewrite read_at; [|exact Hc|exact Hu|exact He].
+    erewrite scan_prev_from_node; [|exact Hc|exact Hu|exact Hne1|lia|].
+    + replace (flat c) with (flat (rev pre'r) ++ rj).
+      2:{ rewrite Hc. rewrite flat_app, flat_cons_eq. cbn [snd]. change (flat []) with (@nil (K * V)). rewrite app_nil_r. reflexivity. }
+      assert (Hsk : skipn (length rj - 1) rj = [e]).
+      { rewrite (skipn_nth_cons _ rj (length rj - 1) e He). rewrite skipn_all2 by lia. reflexivity. }
+      symmetry. apply rev_snoc_split. rewrite <- Hsk. symmetry. apply firstn_skipn.
+    + assert (Hfl : flat c = flat (rev pre'r) ++ rj).
+      { rewrite Hc. rewrite flat_app, flat_cons_eq. cbn [snd]. change (flat []) with (@nil (K * V)). rewrite app_nil_r. reflexivity. }
+      rewrite Hfl in Hf. rewrite !app_length in *. rewrite firstn_length. lia.
+Qed.
+
 (* ---- list-level facts behind the fix-up loops: the cursor keeps pointing at its record ---- *)
 Lemma insert_keeps_record (r : recs) (idx p : nat) (e : K * V) :
   nth_error (insert_at K V r idx e) (if Nat.leb idx p then S p else p) = nth_error r p \/ length r <= p.
